@@ -158,6 +158,15 @@ fn eq_case(a: &str, b: &str, insensitive: bool) -> bool {
     if insensitive { a.eq_ignore_ascii_case(b) } else { a == b }
 }
 
+/// HTML Standard, "case-sensitivity of selectors": attribute names whose values are matched
+/// ASCII case-insensitively on HTML elements in HTML documents.
+pub const LEGACY_CI_ATTRS: &[&str] = &[
+    "accept", "accept-charset", "align", "alink", "axis", "bgcolor", "charset", "checked", "clear", "codetype", "color", "compact", "declare", "defer", "dir",
+    "direction", "disabled", "enctype", "face", "frame", "hreflang", "http-equiv", "lang", "language", "link", "media", "method", "multiple", "nohref",
+    "noresize", "noshade", "nowrap", "readonly", "rel", "rev", "rules", "scope", "scrolling", "selected", "shape", "target", "text", "type", "valign",
+    "valuetype", "vlink",
+];
+
 fn attr_matches(actual: &str, op: AttrOp, value: &str, ci: bool) -> bool {
     let (a, v) = if ci { (actual.to_ascii_lowercase(), value.to_ascii_lowercase()) } else { (actual.to_string(), value.to_string()) };
     match op {
@@ -186,11 +195,13 @@ fn simple_matches(s: &Simple, n: &Node, mode: NotMode, negated: bool) -> bool {
         Simple::Id(i) => n.attrs.iter().any(|(k, v)| k == "id" && v == i),
         Simple::Class(c) => n.attrs.iter().any(|(k, v)| k == "class" && v.split(|ch: char| matches!(ch, ' ' | '\t' | '\n' | '\r' | '\x0C')).any(|w| w == c)),
         Simple::AttrExists(a) => n.attrs.iter().any(|(k, _)| *k == a.to_ascii_lowercase()),
-        Simple::Attr { name, op, value, case } => n
-            .attrs
-            .iter()
-            .find(|(k, _)| *k == name.to_ascii_lowercase())
-            .is_some_and(|(_, v)| attr_matches(v, *op, value, *case == Case::I)),
+        Simple::Attr { name, op, value, case } => {
+            let lname = name.to_ascii_lowercase();
+            // HTML: without a flag, the values of these attributes compare ASCII
+            // case-insensitively on HTML elements (and only there)
+            let ci = *case == Case::I || (*case == Case::Default && n.ns == crate::docgen::Ns::Html && LEGACY_CI_ATTRS.contains(&lname.as_str()));
+            n.attrs.iter().find(|(k, _)| *k == lname).is_some_and(|(_, v)| attr_matches(v, *op, value, ci))
+        }
         Simple::FirstChild => n.child_index == 1,
         Simple::NthChild(a, b) => nth_matches(*a, *b, n.child_index),
         Simple::FirstOfType => n.type_index == 1,
